@@ -40,6 +40,7 @@ def invalid_programs(tier):
     add('two-sites-different', doc(el('p', I(bad(0)), condition=py('c1')), 'mid',
                                    el('q', 'x', content=['text', bad(1, BAD2)], condition=py('c2'))),
         [['c1', 'bool', 0], ['c2', 'bool', 1]])
+    add('unused-macro', doc('a', el('hide', el('p', 'x', I(bad(0)), define_macro='m'), condition=py('cv')), 'b'), [['cv', 'bool', 0]])
     add('on-error-guard', doc(el('p', 'x', I(bad(0)), onerror=['text', py("'E'")]), 'z'), [])
     add('omit', doc(el('p', 'x', omit=bad(0), condition=py('cv'))), [['cv', 'bool', 0]])
     add('attr-interp', doc(el('p', 'x', static=[['t', ['a', I(bad(0))]]], condition=py('cv'))), [['cv', 'bool', 0]])
@@ -74,13 +75,13 @@ def plan(tier, seed):
                    'chameleon.tales:PythonExpr.translate', 'chameleon.exc:ExpressionError',
                    'chameleon.zpt.template:PageTemplate.digest'],
         bounds=('%d templates with one or two syntactically invalid expressions planted at sites whose reachability '
-                'depends on bindings (condition, literally false condition, empty repeat, later pipe alternative, '
+                'depends on bindings (condition, literally false condition, empty repeat, a macro definition that is not rendered, later pipe alternative, '
                 'on-error guard; content/define/attributes/omit-tag/${} sites; same and different invalid text twice): '
                 'strict construction must raise ExpressionError located at the first site, non-strict construction must '
                 'succeed and render must raise the ExpressionError located at the reached site (token, offset, line and '
                 'column) iff the reference interpreter reaches it; 4 of them again spread over several lines with CRLF '
                 'line endings; %d valid templates from the C01/C04 grammars render identically under both '
-                'settings. Bindings decided by the solver. Outside: unused macros, invalid non-python expression types.'
+                'settings. Bindings decided by the solver. Outside: invalid non-python expression types.'
                 % (len(invalid_programs(tier)), len(jobs) - len(invalid_programs(tier)) - 4)),
         assumptions=['reachability oracle = reference interpreter vlib/refsem.py', 'offset of a planted site = position of its '
                      'text in the template the harness serialised'],
